@@ -132,6 +132,15 @@ SCHEMA_VARIANTS = ["omitted", "omitted", "identical", "copy", "reordered", "renu
 
 @st.composite
 def batch(draw, fields, wrong_p=True):
+    if draw(st.integers(0, 59)) == 0:
+        # a batch larger than the writer's internal batch size: exact values, extremes far from the start
+        n = draw(st.sampled_from([1001, 1200, 2100]))
+        seedrows = [{f["name"]: draw(tbl.value_strategy(f["type"])) for f in fields} for _ in range(4)]
+        filler = {f["name"]: draw(tbl.value_strategy(f["type"], small=True)) for f in fields}
+        rows = [dict(filler) for _ in range(n)]
+        for p_, r in zip(draw(st.lists(st.integers(0, n - 1), min_size=4, max_size=4)), seedrows):
+            rows[p_] = r
+        return rows, ["big-batch"]
     n = draw(st.integers(0, 4))
     rows, klass = [], set()
     for _ in range(n):
@@ -375,7 +384,8 @@ def check_history(case):
                 out["violations"].append((f"unreadable-after-append/{vtag}", f"independent reader failed after step {n}: {e}"))
                 return out
             rt = load(root)
-            for api in READ_APIS:
+            big = len(model) > 500
+            for api in (READ_APIS if not big else ["scan", "batches_big"]):
                 try:
                     got = rows_multiset(run_read(rt, api))
                 except Exception as e:  # noqa
@@ -393,13 +403,23 @@ def check_history(case):
                 vals = [r[col] for r in model if r.get(col) is not None]
                 if not vals:
                     continue
-                lit = vals[len(vals) // 2]
-                for flt in ({col: lit}, {col: (">=", lit)}, {col: ("<", lit)}):
+                lits = [vals[len(vals) // 2]]
+                try:
+                    import math as _m
+                    cmpv = [x for x in vals if not (isinstance(x, float) and _m.isnan(x))]
+                    if cmpv:
+                        lits += [max(cmpv), min(cmpv)]
+                except TypeError:
+                    pass
+                flts = []
+                for lit in lits[:3]:
+                    flts += [{col: lit}, {col: (">=", lit)}, {col: ("<", lit)}]
+                for flt in flts:
                     try:
                         want = rows_multiset(tbl.reference_scan(model, flt))
                     except (tbl.Incomparable, tbl.NaNInSet):
                         continue
-                    for api in ("scan", "batches2"):
+                    for api in (("scan", "batches2") if not big else ("scan",)):
                         try:
                             got = rows_multiset(run_read(rt, api, flt))
                         except Exception as e:  # noqa
